@@ -33,7 +33,7 @@ int main(int argc, char** argv) {
 				}
 				if(opk.empty()) continue; cur = opk; op(opk); softcfg().opk = opk; describe(" " + opk + "(" + std::to_string(a) + "," + std::to_string(b) + ")"); sig_mix(opk.c_str()); count("op:" + opk); ++done;
 				if(st().case_viol) throw stop_case{};
-				L live = 0; for(auto& sl : pool) if(sl.a) { ++live; if(sl.a->num_elements() != 1) V("C04:0-D:" + opk + ":num_elements", "a 0-D array reports " + std::to_string(sl.a->num_elements()) + " elements"); else if(!sl.unspec && sl.a->data_elements()->get() != int(sl.id)) V("C04:0-D:" + opk + ":array-differs-from-model", "0-D array holds " + std::to_string(sl.a->data_elements()->get()) + ", model " + std::to_string(sl.id)); }
+				L live = 0; for(auto& sl : pool) if(sl.a) { ++live; if(sl.a->is_empty() || sl.a->layout().is_empty() || sl.a->layout().empty()) V("C04:0-D:" + opk + ":is_empty", "a 0-D array (exactly one element) reports itself empty"); else if(sl.a->num_elements() != 1) V("C04:0-D:" + opk + ":num_elements", "a 0-D array reports " + std::to_string(sl.a->num_elements()) + " elements"); else if(!sl.unspec && sl.a->data_elements()->get() != int(sl.id)) V("C04:0-D:" + opk + ":array-differs-from-model", "0-D array holds " + std::to_string(sl.a->data_elements()->get()) + ", model " + std::to_string(sl.id)); }
 				for(std::size_t i = 0; i < 3; ++i) for(std::size_t j = i + 1; j < 3; ++j) if(pool[i].a && pool[j].a && pool[i].a->data_elements() == pool[j].a->data_elements()) V("C04:0-D:" + opk + ":storage-shared", "two 0-D arrays share storage");
 				if(L(registry().live.size()) != live) V("C08:0-D:" + opk + ":live-elements-vs-arrays", std::to_string(registry().live.size()) + " live elements for " + std::to_string(live) + " live 0-D arrays");
 				if(L(ledger().blocks.size()) != live) V("C08:0-D:" + opk + ":outstanding-blocks", std::to_string(ledger().blocks.size()) + " blocks for " + std::to_string(live) + " live 0-D arrays");
